@@ -60,6 +60,10 @@ pub fn pool() -> Vec<(&'static str, &'static str)> {
         // local says nothing about another item's local
         ("local-from-division", "library Ld# { function quote# ( uint256 reserveOut , uint256 reserveIn ) internal pure returns ( uint256 ) { uint256 rate = reserveOut / reserveIn ; uint256 [ ] memory items ; items [ 0 ] = rate ; return rate ; } }"),
         ("local-same-name-product", "contract Lp# { function reward# ( uint256 stake , uint256 rate , uint256 [ ] memory items ) external payable returns ( uint256 ) { return rate * stake ; } }"),
+        // a function NAME that also occurs in another item (fixed names): a call of `process` in one item says nothing about the
+        // function `process` of another item
+        ("public-memory-function", "contract Pm# { function process ( bytes memory data ) public payable returns ( uint256 ) { return data . length ; } }"),
+        ("caller-of-same-name", "contract Ca# { function run# ( bytes memory blob ) external payable { process ( blob ) ; } function process ( bytes memory inner ) internal { inner = inner ; } }"),
         ("library-of-named-struct", "library Ln# { struct Kind { uint128 a ; uint256 b ; uint128 c ; } function _k# ( Price p ) internal { } }"),
     ]
 }
@@ -170,6 +174,79 @@ fn check(seq: &[usize], pool: &[(&'static str, &'static str)], pragma_pos: usize
     out
 }
 
+/// Two items whose flagged constructs lie exactly 65536 (and 2 x 65536) bytes apart, with a comment of computed length
+/// between them: a key derived from the low 16 bits of an offset makes one item's construct stand for the other's.
+fn aligned_pairs(dets_: &[dets::Detector]) -> Vec<Out> {
+    let pairs: [(&str, &str, &str); 3] = [
+        ("contract U0 { function u0 ( uint256 n ) public { unchecked { ++ n ; } } }", "contract P1 { function p1 ( uint256 k ) public { ++ k ; } }", "++"),
+        ("contract A0 { function a0 ( address t ) public { IERC20 ( t ) . transfer ( t , 1 ) ; } }", "contract B1 { function b1 ( address t ) public { IVault ( t ) . transfer ( t , 1 ) ; } }", "IERC20"),
+        ("contract D0 { uint256 s0 ; function d0 ( uint256 a ) public { s0 = a ; } }", "contract E1 { uint256 s1 ; constructor ( ) { s1 = 1 ; } }", "s0"),
+    ];
+    let mut outs = Vec::new();
+    for (a, b, mark) in pairs {
+        for multiple in [1usize, 2] {
+            for (first, second) in [(a, b), (b, a)] {
+                let ta: Vec<String> = first.split(' ').map(|x| x.to_string()).collect();
+                let tb: Vec<String> = second.split(' ').map(|x| x.to_string()).collect();
+                let head = "pragma\nsolidity\n0.8.19\n;\n";
+                let ra: String = ta.iter().map(|t| format!("{}\n", t)).collect();
+                let rb: String = tb.iter().map(|t| format!("{}\n", t)).collect();
+                // offset of the marked token in each rendered item (the second item's counterpart sits at the same token index
+                // when the shapes agree, otherwise at its own first operator of the same spelling)
+                let key = |toks: &Vec<String>, r: &String| -> Option<usize> {
+                    let idx = toks.iter().position(|t| t == mark || (mark == "IERC20" && t == "IVault") || (mark == "s0" && t == "s1") || t == "++")?;
+                    let _ = r;
+                    Some(toks[..idx].iter().map(|t| t.len() + 1).sum())
+                };
+                let (oa, ob) = match (key(&ta, &ra), key(&tb, &rb)) {
+                    (Some(x), Some(y)) => (x, y),
+                    _ => continue,
+                };
+                // whole = head + ra + filler + "\n" + rb ; distance = (ra.len() - oa) + filler.len() + 1 + ob
+                let base = ra.len() - oa + 1 + ob;
+                let want = 65536 * multiple;
+                if base + 4 > want {
+                    continue;
+                }
+                let filler = format!("/*{}*/", "f".repeat(want - base - 4));
+                let whole = format!("{}{}{}\n{}", head, ra, filler, rb);
+                let blank = |r: &String| -> String { r.chars().map(|c| if c == '\n' { '\n' } else { ' ' }).collect::<String>().lines().map(|_| "\n").collect() };
+                let only_a = format!("{}{}{}\n{}", head, ra, filler, blank(&rb));
+                let only_b = format!("{}{}{}\n{}", head, blank(&ra), filler, rb);
+                let mut out = Out { violations: Vec::new(), calls: 0, outcomes: Vec::new(), parsed: 0 };
+                if solang_parser::parse(&whole, 0).is_err() || solang_parser::parse(&only_a, 0).is_err() || solang_parser::parse(&only_b, 0).is_err() {
+                    out.violations.push(Violation { site: "MACHINERY".into(), input: format!("{} | {}", first, second), expected: String::new(), observed: "aligned pair does not parse".into(), size: 0, unit_test: String::new(), extra: json!({}) });
+                    outs.push(out);
+                    continue;
+                }
+                out.parsed += 3;
+                for d in dets_ {
+                    out.calls += 3;
+                    let (w, x, y) = match (dets::run_guarded(d, &whole, 0), dets::run_guarded(d, &only_a, 0), dets::run_guarded(d, &only_b, 0)) {
+                        (Ok(w), Ok(x), Ok(y)) => (w, x, y),
+                        _ => continue,
+                    };
+                    let union: BTreeSet<i32> = x.union(&y).copied().collect();
+                    out.outcomes.push(util::fnv(&format!("aligned:{}:{:?}", d.name, w)));
+                    if w != union {
+                        out.violations.push(Violation {
+                            site: format!("{}:{}", d.name, if w.len() > union.len() { "leak" } else { "suppression" }),
+                            input: format!("{} /* {} bytes of comment */ {}", first, filler.len(), second),
+                            expected: format!("lines {:?} = union of the per-item results", union),
+                            observed: format!("lines {:?} for the whole file; the marked constructs of the two items lie exactly {} bytes apart", w, want),
+                            size: whole.len(),
+                            unit_test: String::new(),
+                            extra: json!({"distance": want}),
+                        });
+                    }
+                }
+                outs.push(out);
+            }
+        }
+    }
+    outs
+}
+
 pub fn run(tier: Tier) -> i32 {
     util::quiet();
     let mut run = Run::new("C19", if tier == Tier::Quick { "quick" } else { "thorough" });
@@ -200,7 +277,22 @@ pub fn run(tier: Tier) -> i32 {
             }
         }
     }
+    // sequences of FOUR items over the templates that differ in which members they have (functions, a constructor first / last,
+    // variables only, none): a running count over the members of the file must start again with every contract
+    {
+        let sub: Vec<usize> = ["ctor-after-function", "ctor-first", "single-narrow-var", "interface", "library", "abstract", "enum"].iter().filter_map(|nm| pool.iter().position(|(k, _)| k == nm)).collect();
+        for &a in &sub {
+            for &b in &sub {
+                for &c in &sub {
+                    for &d in &sub {
+                        seqs.push((vec![a, b, c, d], 0));
+                    }
+                }
+            }
+        }
+    }
     let res = util::par_map(seqs.len(), |i| check(&seqs[i].0, &pool, seqs[i].1, &dets_));
+    let aligned = aligned_pairs(&dets_);
     let mut calls = 0u64;
     let mut parsed = 0u64;
     let mut outcomes: HashSet<u64> = HashSet::new();
@@ -209,7 +301,7 @@ pub fn run(tier: Tier) -> i32 {
         parsed += o.parsed;
         outcomes.extend(o.outcomes.iter().copied());
     }
-    for o in res {
+    for o in res.into_iter().chain(aligned) {
         for v in o.violations {
             if v.site == "MACHINERY" {
                 run.machinery(format!("item sequence does not parse: {}", crate::ev::one_line(&v.input)));
@@ -224,7 +316,7 @@ pub fn run(tier: Tier) -> i32 {
     run.set("evaluations", calls);
     run.set("distinct_nontrivial", outcomes.len() as u64);
     run.set("item_templates", n as u64);
-    run.set("rule", "states = files built from all sequences with repetition of 2 items (x pragma first / between / last) and of 3 items (quick: every 4th; thorough: all, pragma first and last) from a pool of 41 item templates instantiated with fresh identifier suffixes; transitions = detector calls on the whole file and on each item-wise blanked file (28 detectors); oracle = set equality of the whole-file lines with the union of the per-item lines; non-trivial = distinct (detector, whole-file result) outcomes");
+    run.set("rule", "states = files built from all sequences with repetition of 2 items (x pragma first / between / last) and of 3 items (quick: every 4th; thorough: all, pragma first and last) from a pool of 43 item templates instantiated with fresh identifier suffixes; transitions = detector calls on the whole file and on each item-wise blanked file (28 detectors); oracle = set equality of the whole-file lines with the union of the per-item lines; non-trivial = distinct (detector, whole-file result) outcomes");
     run.set("bound_completed", if tier == Tier::Quick { "all pairs x 3 pragma positions; every 4th triple" } else { "all pairs and all triples" });
     run.set("samples", json!(seqs.iter().step_by(seqs.len() / 3 + 1).take(3).map(|(s, p)| json!({"items": s.iter().map(|&i| pool[i].0).collect::<Vec<_>>(), "pragma_position": p})).collect::<Vec<_>>()));
     run.finish()
